@@ -18,6 +18,19 @@ use std::fmt::Write as _;
 use syn::spanned::Spanned;
 use syn::visit::Visit;
 
+static VACUITY: std::sync::atomic::AtomicBool = std::sync::atomic::AtomicBool::new(false);
+static PROBE_NO: std::sync::atomic::AtomicUsize = std::sync::atomic::AtomicUsize::new(0);
+thread_local! { static PROBES: std::cell::RefCell<Vec<(usize, String)>> = std::cell::RefCell::new(vec![]); }
+
+fn vacuity() -> bool { VACUITY.load(std::sync::atomic::Ordering::Relaxed) }
+/// vacuity mode: `assert(!vac_probe(N))` must FAIL at every probed program point; a probe that verifies
+/// marks code that the contracts make unreachable (contradictory requires / invariants / oracle contracts)
+fn new_probe(what: String) -> String {
+    let n = PROBE_NO.fetch_add(1, std::sync::atomic::Ordering::Relaxed);
+    PROBES.with(|p| p.borrow_mut().push((n, what)));
+    format!(" assert(!vac_probe({})); ", n)
+}
+
 #[derive(Debug)]
 pub struct Refuse(pub String);
 type R<T> = Result<T, Refuse>;
@@ -320,6 +333,10 @@ impl<'s> Rw<'s> {
         if self.f.kill_arms.contains(&idx) {
             self.edit(a, a, "{ arm_verified_in_another_copy(); ", "R16", &format!("arm `{}` is verified in another copy", label));
             self.edit(b, b, " }", "R16", "arm close");
+        } else if vacuity() && !self.scan_only {
+            let pr = new_probe(format!("{}: {}", self.f.path, label));
+            self.edit(a, a, &format!("{{{}", pr), "VAC", "vacuity probe");
+            self.edit(b, b, " }", "VAC", "vacuity probe close");
         }
     }
 
@@ -539,6 +556,11 @@ impl<'s> Rw<'s> {
                 let (_, b) = br(body.brace_token.span.open());
                 let txt = format!("\n{}\n", ls.body.trim_end());
                 self.edit(b, b, &txt, "INJ", &format!("loop #{} body prologue", k));
+            }
+            if vacuity() && !self.scan_only {
+                let (_, b) = br(body.brace_token.span.open());
+                let pr = new_probe(format!("{}: body of loop #{} ({}:{})", self.f.path, k, self.src.rel, whole.start().line));
+                self.edit(b, b, &pr, "VAC", "vacuity probe");
             }
             Some(ls)
         } else {
@@ -1277,7 +1299,10 @@ fn emit_fn_inner(unit: &Unit, src: &SrcFile, f: &FnSpec, threaded: &BTreeSet<Str
                 let (_, be) = br(block.span());
                 rw.edit(ba, be, "{ unimplemented!() }", "ASSUMED", &format!("body of {} not verified here: signature + contract only", name));
             } else {
-                let pre = if f.pre.trim().is_empty() { String::new() } else { format!("\n{}\n", f.pre.trim_end()) };
+                let mut pre = if f.pre.trim().is_empty() { String::new() } else { format!("\n{}\n", f.pre.trim_end()) };
+                if vacuity() {
+                    pre.push_str(&new_probe(format!("{}: function entry ({}:{})", f.path, src.rel, sig.fn_token.span.start().line)));
+                }
                 rw.edit(bb, bb, &pre, "INJ", "body prologue");
                 rw.visit_block(block);
             }
@@ -1591,6 +1616,7 @@ fn run() -> R<()> {
                 prelude = args[i + 1].clone();
                 i += 1
             }
+            "--vacuity" => VACUITY.store(true, std::sync::atomic::Ordering::Relaxed),
             x => refuse!("unknown arg {}", x),
         }
         i += 1;
@@ -1642,7 +1668,12 @@ fn run() -> R<()> {
                         if f.selects.len() != 1 {
                             refuse!("//@split-arms on `{}` needs exactly one select! (the split is only sound over mutually exclusive arms)", f.path);
                         }
-                        let probe = emit_fn(&unit, &srcs[&f.file], f, &threaded)?;
+                        // the first pass only collects the arms; it must not allocate vacuity probes
+                        let vac = vacuity();
+                        VACUITY.store(false, std::sync::atomic::Ordering::Relaxed);
+                        let probe = emit_fn(&unit, &srcs[&f.file], f, &threaded);
+                        VACUITY.store(vac, std::sync::atomic::Ordering::Relaxed);
+                        let probe = probe?;
                         let arms = probe.arms.clone();
                         let leaves: Vec<usize> = (0..arms.len())
                             .filter(|&i| !(0..arms.len()).any(|j| j != i && arms[j].0 >= arms[i].0 && arms[j].1 <= arms[i].1))
@@ -1667,7 +1698,10 @@ fn run() -> R<()> {
                             let mut fs = f.clone();
                             fs.stub = true;
                             fs.attrs = vec!["#[verifier::external_body]".to_string()];
-                            let em = emit_fn(&unit, &srcs[&f.file], &fs, &threaded)?;
+                            VACUITY.store(false, std::sync::atomic::Ordering::Relaxed);
+                            let em = emit_fn(&unit, &srcs[&f.file], &fs, &threaded);
+                            VACUITY.store(vac, std::sync::atomic::Ordering::Relaxed);
+                            let em = em?;
                             outs.push((em, f.file.clone(), f.path.clone(), "fn", f.out_name(), Some("callers' view (contract only; proved by the copies above)".to_string())));
                         }
                     }
@@ -1739,6 +1773,10 @@ fn run() -> R<()> {
         .collect();
     let map = serde_json::json!({"unit": unit.name, "lines": lm, "items": items_json, "threaded": threaded.iter().collect::<Vec<_>>()});
     std::fs::write(format!("{}/map.json", out), serde_json::to_string(&map).unwrap()).map_err(|e| Refuse(e.to_string()))?;
+    if vacuity() {
+        let pj: Vec<serde_json::Value> = PROBES.with(|p| p.borrow().iter().map(|(n, w)| serde_json::json!({"n": n, "where": w})).collect());
+        std::fs::write(format!("{}/probes.json", out), serde_json::to_string_pretty(&pj).unwrap()).map_err(|e| Refuse(e.to_string()))?;
+    }
     let rj = serde_json::json!({"unit": unit.name, "counts": rule_counts, "applications": rules});
     std::fs::write(format!("{}/rules.json", out), serde_json::to_string_pretty(&rj).unwrap()).map_err(|e| Refuse(e.to_string()))?;
     Ok(())
